@@ -45,12 +45,14 @@ def aggregate_sites(prog):
 
 
 def callers_of(prog, key):
+    """functions that call `key` (a closure counts for the function it is written in)"""
     res = set()
     for k, body in prog.bodies.items():
         for bb in body["blocks"]:
             c = flow.callee_of(bb["term"])
             if c is not None and flow.callee_key(c) == key:
-                res.add(k)
+                owner = k.split("::{closure")[0]
+                res.add(owner if owner in prog.bodies else k)
     return res
 
 
@@ -172,6 +174,12 @@ def enumerate_function(prog, env, key, max_rows=4000):
             if status == "inconclusive":
                 rows.append({"key": rk, "status": "inconclusive", "detail": (val.reason, val.where)})
                 continue
+            if run.interp.ctx.decisions:
+                # the function asked something the order abstraction leaves open (a field of a version …): only the first
+                # answer was followed, so the row decides nothing
+                rows.append({"key": rk, "status": "inconclusive",
+                             "detail": ("the function reads the versions themselves (%s)" % ", ".join(sorted(set(run.interp.ctx.labels))), None)})
+                continue
             sets = []
             collect_sets(run.interp, val, sets)
             bad = None
@@ -203,8 +211,13 @@ def construct_rule(ctx, rep, prog, deferred_to_parsed):
                       "invariant (Lower/Upper shape, non-empty) on every abstract input")
     env = intervals.Env(prog)
     sites = aggregate_sites(prog)
-    if "range::BoundSet::new" not in sites:
-        rep.inconc("%s: the validating constructor range::BoundSet::new builds no BoundSet (anchor moved?)" % rule)
+    VALIDATING = "range::BoundSet::new"
+    if VALIDATING not in sites:
+        # it may build its result through a private raw constructor
+        out, bodies = flow.reach_callees(prog, VALIDATING) if prog.has_body(VALIDATING) else (set(), set())
+        if not (set(out) & set(sites)):
+            rep.inconc("%s: the validating constructor range::BoundSet::new builds no BoundSet, neither itself nor through a "
+                       "function it calls (anchor moved?)" % rule)
     judged = {}
 
     def judge(key):
@@ -247,7 +260,10 @@ def construct_rule(ctx, rep, prog, deferred_to_parsed):
             return True
         verdicts = []
         for c in sorted(callers):
-            if c in deferred_to_parsed:
+            if c == "range::BoundSet::new":
+                verdicts.append(True)          # the validating constructor: what it returns is tabled by T-NEW
+                continue
+            if c in deferred_to_parsed or any(d.split("::{closure")[0] == c for d in deferred_to_parsed):
                 verdicts.append(True)          # INV-PARSED looks at what this closure returns
                 continue
             if depth >= 2:
